@@ -1158,6 +1158,32 @@ def sym_exp(x):
     return SymReal(y)
 
 
+LOG2 = z3.Function("log2", z3.RealSort(), z3.RealSort())
+
+
+def sym_log2(x):
+    """log2 of a symbolic positive real: the integer part is decided by forking (2^n <= x < 2^(n+1), n in [-40, 64)), the
+    value itself is an uninterpreted term constrained to [n, n+1) (== n exactly at the power of two) and monotone in its
+    argument - enough for int(log2(.)) / floor / ceil / comparisons with integers, which is how iteration counts are derived"""
+    if not isinstance(x, SymReal):
+        return math.log2(x)
+    c = Ctx.cur
+    a = _real(x.e)
+    if not bool(SymBool(a > 0)):
+        raise Abort("log2 of a non-positive value")
+    for n in range(-40, 64):
+        lo, hi = lift_num(Fraction(2) ** n), lift_num(Fraction(2) ** (n + 1))
+        if bool(SymBool(z3.And(a >= lo, a < hi))):
+            y = LOG2(a)
+            c.solver.add(y >= n, y < n + 1, (y == n) == (a == lo))
+            for b in getattr(c, "log_args", []):
+                c.solver.add(z3.Implies(a < b, y < LOG2(b)), z3.Implies(b < a, LOG2(b) < y), z3.Implies(a == b, y == LOG2(b)))
+            c.log_args = getattr(c, "log_args", []) + [a]
+            c.model = None
+            return SymReal(y)
+    raise Abort("log2 outside the modelled range 2^-40 .. 2^64")
+
+
 _CMP_KINDS = (z3.Z3_OP_LE, z3.Z3_OP_LT, z3.Z3_OP_GE, z3.Z3_OP_GT, z3.Z3_OP_EQ)
 
 
